@@ -68,7 +68,7 @@ def applyHeader (disableNorm : Bool) (st : HState) (key value : Bytes) : HState 
       else st
     else if c = 116 ∧ ciEq key strTrailer then
       let (names, bad) := setTrailers disableNorm value
-      { err := bad, head := { hd with trailer := names } }
+      { err := bad, head := { hd with trailer := hd.trailer ++ names } }   -- fields combine (117944e)
     else add
 
 def headersLoop (disableNorm : Bool) : Nat → Bytes → HState → Nat → Except HeadErr (HState × Nat)
